@@ -295,23 +295,20 @@ func runC14Format(ctx *Ctx) {
 	n := ctx.N(5000, 100000)
 	for i := 0; i < n; i++ {
 		format, args := genFormat(ctx)
-		if i == 0 { // corpus: minimal witness of the precision-zero finding
+		if i == 0 { // corpus: witness of the precision-zero defect repaired by d93e8c0, must pass
 			format, args = "%.0s", []cty.Value{sv("a")}
 		}
 		fv := sv(format)
 		all := append([]cty.Value{fv}, args...)
 		o := newOracle()
 		want, ok, judged := refFormat(o, fv.AsString(), args, false)
-		if alt, aok, _ := refFormat(o, fv.AsString(), args, true); aok {
-			o.nfc(alt) // library facts for the code as written (precision 0 not applied to strings)
-		}
 		c := glueCase{name: "format", goNm: "Format", f: stdlib.FormatFunc, args: all, orc: o, skip: !judged}
 		if ok {
 			c.want = sv(o.nfc(want))
 		} else {
 			c.wantErr = true
 		}
-		// the two places where the code departs from the documented / Go behaviour get their own signature
+		// regression signature of fix d93e8c0 (a zero precision on strings used to be ignored)
 		if strings.Contains(format, ".0s") || strings.Contains(format, ".s") || strings.Contains(format, ".0q") || strings.Contains(format, ".q") ||
 			strings.Contains(format, ".0[") || strings.Contains(format, ".[") {
 			c.failSig = "format-string-precision-zero-ignored"
